@@ -31,7 +31,7 @@ func cmdVerify(args []string) {
 	tags := fs.String("tags", "verif", "build tags")
 	trusted := fs.String("trusted", "/verif/contracts/trusted", "trusted contracts dir")
 	only := fs.String("only", "", "substring filter on function display name")
-	timeout := fs.Int("timeout", 10, "solver timeout (s)")
+	timeout := fs.Int("timeout", 20, "solver timeout (s)")
 	dump := fs.String("dump", "", "dump the query of obligations whose name contains this")
 	verbose := fs.Bool("v", false, "verbose")
 	fs.Parse(args)
@@ -74,6 +74,9 @@ func cmdVerify(args []string) {
 		for _, o := range r.Obls {
 			if o.Status == "discharged" {
 				nd++
+				if o.Ms > 2000 {
+					fmt.Printf("  slow %s path %d: %dms (%s)\n", o.Name, o.Path, o.Ms, o.Solver)
+				}
 			} else {
 				nf++
 				fmt.Printf("  FAIL %s [%s] path %d at %s (%s %dms)\n", o.Name, o.Status, o.Path, o.Pos, o.Solver, o.Ms)
